@@ -120,6 +120,16 @@ class World(object):
             @event.listens_for(self.engine, 'connect')
             def _fk_on(dbapi_conn, rec):
                 dbapi_conn.execute('PRAGMA foreign_keys=ON')
+        # MySQL AUTO_INCREMENT and PostgreSQL sequences never hand out a
+        # surrogate id twice; plain SQLite "INTEGER PRIMARY KEY" re-uses
+        # max(id)+1 after a delete.  Make the stub behave like production.
+        from placement.db.sqlalchemy import models
+        for name, table in models.BASE.metadata.tables.items():
+            if name == 'resource_classes':
+                continue    # ids are assigned by the application
+            pk = list(table.primary_key.columns)
+            if len(pk) == 1 and pk[0].name == 'id':
+                table.dialect_options['sqlite']['autoincrement'] = True
         migration.create_schema(self.engine)
         self.snap_empty = self.snapshot()
         self._reset_sync_flags()
